@@ -66,6 +66,10 @@ pub trait BK: Sized + Clone + PartialEq + Hash + Encode + Decode + serde::Serial
     fn diffin_(&mut self, o: &Self);
     fn diff_(&self, o: &Self) -> Self;
     fn is_empty_(&self) -> bool;
+    /// `Display` (bitvectors only)
+    fn display_(&self) -> Option<String> {
+        None
+    }
 }
 
 macro_rules! common_methods {
@@ -140,6 +144,9 @@ impl<N: Unsigned + Clone> BK for BitList<N> {
 impl<N: Unsigned + Clone> BK for BitVector<N> {
     fn kind() -> Kind {
         Kind::F(N::to_usize())
+    }
+    fn display_(&self) -> Option<String> {
+        Some(format!("{}", self))
     }
     fn new_n(_n: usize) -> Result<Self, ()> {
         Ok(Self::new())
@@ -763,6 +770,10 @@ pub fn run_bitbytes<B: BK>(ctx: &mut Ctx) {
             ctx.out.r("C14", "bitbytes", raw == x.slice_(), &["into_raw_bytes_is_slice", "bf_from", &ks, &hx]);
             let val = bits_str(x.bits_().into_iter());
             ctx.out.m("bitbytes", &format!("ok {}", hex(&into)), &["bf_into", &ks, &val]);
+            if let Some(disp) = x.display_() {
+                ctx.out.m("bitbytes", &disp, &["bf_display", &val]);
+                ctx.out.r("C11", "bitbytes", disp == val[1..], &["display_is_bit_string", "bf_from", &ks, &hx]);
+            }
         } else {
             ctx.out.bump(&format!("bitbytes.{}.err", ks));
         }
@@ -770,10 +781,13 @@ pub fn run_bitbytes<B: BK>(ctx: &mut Ctx) {
     // constructors with requested lengths
     let nb8 = 8 * ((n + 7) / 8);
     let mut lens = vec![0, 1, n.saturating_sub(1), n, n + 1, nb8, nb8 + 1, 7, 8, 9, 16];
+    // absurd requests must fail with an error, not overflow (lengths that are multiples of 8 are left out
+    // for the dynamic behaviour: those are honest requests for an enormous allocation)
+    lens.extend([usize::MAX, usize::MAX - 1, usize::MAX - 6, (1usize << 63) + 1, (1usize << 32) + 3]);
     lens.sort();
     lens.dedup();
     for l in lens {
-        if l > 5000 {
+        if l > 5000 && l < (1usize << 32) {
             continue;
         }
         let r = catch_unwind(AssertUnwindSafe(|| B::new_n(l)));
